@@ -233,7 +233,12 @@ func phxRunScenario(trace *vhTrace, keys *vhKeys, sc vhScenario) {
 		case "Grow":
 			chain.Grow(func(top int) { trace.Emit(r.sc, "ChainGrow", map[string]interface{}{"top": top}, nil) })
 		case "Push":
+			// rpc = "fail": the node answers the set call of this Push's chain lookup with an error
+			if vhStr(st.A, "rpc") == "fail" {
+				chain.ArmFailure("getGuardianSet", 1)
+			}
 			r.push(vhMap(st.A, "v"))
+			chain.ClearFailures()
 		case "HeldPush":
 			r.heldPush(st.A)
 		case "Lookup":
